@@ -63,9 +63,11 @@ int __CPROVER_file_local_parser_c_parse_cif(struct scanner_s *s, cif_tp *cif) {
     V_ASSERT(rc >= 0, "no internal (negative) code escapes the scan function");
     if (rc != CIF_OK) V_ASSERT(reject_at >= 1 && nerr >= reject_at && rc == codes[(reject_at - 1) % REF_MAXERR], "a non-zero result is exactly the code the callback rejected");
     else {
+        V_ASSERT(!(reject_at >= 1 && nerr >= reject_at), "a rejection by the error callback is not swallowed");
         V_ASSERT(s->next_char >= s->buffer && s->next_char <= s->buffer + KLEN, "the scan position stays inside the buffer");
         V_ASSERT(s->tvalue_start >= s->buffer && s->tvalue_start + s->tvalue_length <= s->buffer + KLEN, "the token value lies inside the buffer");
     }
+    if (reject_at >= 1 && nerr >= reject_at) V_ASSERT(nerr == reject_at, "no further error is reported once the callback has rejected one");
     if (clean) {
         if (reject_at == 0 || reject_at > r.nerr) {
             V_ASSERT(rc == CIF_OK, "with every error accepted the scan succeeds");
